@@ -142,6 +142,16 @@ CHECKS['C15'] = ('exploration',
          'The table is a hand transcription of the docstring annotations (public base names not in it are listed under notes.unclassified in the evidence: '
          'they take matrices only). Predicates answer wrong lengths with a bool; an empty list handed to a list-capable class is an empty object (C10).',
          'DESIGN.md 3/C15')
+CHECKS['C17'] = ('model_checking',
+         'call-history exploration (depth 1, all type-compatible pairs, all independent pairs) with byte snapshots of every live value',
+         '1 630 call descriptors (every base function of the signature table and the matrix functions, and by reflection every public property, nullary '
+         'method, selected methods, binary / augmented operator, list mutator and constructor of every class, single- and multi-valued). Depth 1: each '
+         'descriptor x each container form, executed twice (determinism). Depth 2: every ordered pair in which the first result fits an argument of the '
+         'second, and every ordered pair without data flow (catches shared scratch buffers); thorough adds a thinned depth 3. After every step the byte '
+         'snapshots of all arguments, receivers and earlier results must be unchanged (documented mutators: receiver excepted).',
+         'Snapshots see ndarray bytes, lists/tuples and the instance __dict__ of library objects; one value letter per kind. Random constructors are only '
+         'checked for not modifying anything.',
+         'DESIGN.md 3/C17')
 PENDING = {}
 
 def main():
